@@ -192,7 +192,8 @@ def main(argv=None):
     # a run against another tree (VERIF_REPO, used only to try seeded changes) holds it exclusively for its whole duration
     other_tree = os.path.realpath(os.environ.get("VERIF_REPO") or "/repo") != os.path.realpath("/repo")
     tree_lock = open(os.path.join(common.VERIF, ".tree.lock"), "w")
-    fcntl.flock(tree_lock, fcntl.LOCK_EX if other_tree else fcntl.LOCK_SH)
+    if not os.environ.get("VERIF_TREE_LOCK_HELD"):      # set by tools/try_patch_all.sh, which holds the lock for all its checks
+        fcntl.flock(tree_lock, fcntl.LOCK_EX if other_tree else fcntl.LOCK_SH)
     t0 = time.time()
     ctx = Ctx(prop, args.tier, seed)
     mod = importlib.import_module(f"harness.props.{prop}")
